@@ -271,9 +271,11 @@ class Requester(object):
                     body = form.encode('utf-8')
                     self.headers[u'content-type'] = u'multipart/form-data; boundary={0}'.format(boundary)
                 else:
-                    formParts = [u"{0}={1}".format(key, val) for key, val in self.fargs.items()]
+                    # quote each name and value so that '&' and '=' inside them
+                    # are not taken as separators
+                    formParts = [u"{0}={1}".format(quote_plus(str(key)), quote_plus(str(val)))
+                                 for key, val in self.fargs.items()]
                     form = u'&'.join(formParts)
-                    form = quote_plus(form, '&=')
                     body = form.encode('utf-8')
                     self.headers[u'content-type'] = u'application/x-www-form-urlencoded; charset=utf-8'
             else:  # body last in precendence
